@@ -684,11 +684,14 @@ func c12LockWitness() (c12LockTrace, error) {
 
 // c12Req is one concurrent request.
 type c12Req struct {
-	Kind  string     `json:"kind"`         // dotx | select | play
-	Tx    *hx.TxSpec `json:"tx,omitempty"` // dotx: assembled against the model state before the concurrent phase
-	Addr  int        `json:"addr,omitempty"`
-	Need  string     `json:"need,omitempty"`
-	Block int        `json:"block,omitempty"` // play: model block index (confirmed, child of the pointer, not played)
+	Kind string     `json:"kind"`         // dotx | select | play
+	Tx   *hx.TxSpec `json:"tx,omitempty"` // dotx: assembled against the model state before the concurrent phase
+	Addr int        `json:"addr,omitempty"`
+	Need string     `json:"need,omitempty"`
+	// BySize (select): the selection goes through SelectUtxosBySize (as many unlocked outputs as fit into half a block,
+	// with locking) instead of SelectUtxos
+	BySize bool `json:"bysize,omitempty"`
+	Block  int  `json:"block,omitempty"` // play: model block index (confirmed, child of the pointer, not played)
 }
 
 // c12StateTrace: sequential prefix, concurrent requests, schedule.
@@ -894,6 +897,12 @@ func (e *c12Env) body(i int) func() {
 	case rq.Kind == "select":
 		need, _ := new(big.Int).SetString(rq.Need, 10)
 		addr := hx.Ring[rq.Addr].Address
+		if rq.BySize {
+			return func() {
+				r.ins, r.lockKeys, r.total, r.err = st.SelectUtxosBySize(addr, true, false)
+				r.finished = true
+			}
+		}
 		return func() {
 			r.ins, r.lockKeys, r.total, r.err = st.SelectUtxos(addr, need, true, false)
 			r.finished = true
@@ -1478,7 +1487,7 @@ func (e *c12Env) selectorOracle(out *c12Outcome, modelOK, race bool) error {
 		if r.total == nil || sum.Cmp(r.total) != 0 {
 			return fmt.Errorf("SelectUtxos total %v differs from the sum %s of the returned outputs", r.total, sum)
 		}
-		if sum.Cmp(need) < 0 {
+		if sum.Cmp(need) < 0 && !reqs[i].BySize {
 			return fmt.Errorf("SelectUtxos succeeded with total %s < need %s", sum, need)
 		}
 	}
@@ -1487,6 +1496,9 @@ func (e *c12Env) selectorOracle(out *c12Outcome, modelOK, race bool) error {
 			continue
 		}
 		out.label("select-failed")
+		if reqs[i].BySize {
+			continue // a selection by size has no amount to fail on
+		}
 		if r.err != utxo.ErrNoEnoughUTXO {
 			return fmt.Errorf("SelectUtxos failed with %v", r.err)
 		}
@@ -1714,7 +1726,7 @@ func (g *c12Gen) selector(addr int) *c12Req {
 	if need.Sign() <= 0 {
 		need = big.NewInt(1)
 	}
-	return &c12Req{Kind: "select", Addr: addr, Need: need.String()}
+	return &c12Req{Kind: "select", Addr: addr, Need: need.String(), BySize: rapid.IntRange(0, 2).Draw(g.rt, "bysize") == 0}
 }
 
 // c12GenReqs draws 2-4 requests chosen to conflict (all against the model state g.s).
